@@ -432,4 +432,4 @@ def replay(art):
             continue
         chk(ex, fac, (tuple(c['priority']), pre))
         break
-    return [v['detail'] for v in st.viol] or None
+    return runner.fresh_details('C17', st) or None
